@@ -4,8 +4,8 @@
    are Model/QueryV0.v and the C13_..._refuted theorems state what was wrong with them.
    [o] "returns" means: (exists v, o = Ok v) \/ o = Err -- neither Panic nor OutOfFuel. *)
 From LV Require Import Base.Bytes Model.Obj Model.DocQ Model.PageTree Model.Utf Model.Query Model.QueryV0
-  Gen.Consts Gen.QueryC Proofs.QueryProofs Proofs.QueryProofsWalk Proofs.QueryV0Proofs Proofs.QueryReal.
-From LV Require Model.Toc Model.A85 Model.StreamFilt Spec.StreamCodecSpec Proofs.QueryRealFilt.
+  Gen.Consts Gen.QueryC Proofs.QueryProofs Proofs.QueryProofsWalk Proofs.QueryV0Proofs Proofs.QueryReal Proofs.QueryRealText.
+From LV Require Model.Toc Model.A85 Model.StreamFilt Model.CMap Spec.StreamCodecSpec Proofs.QueryRealFilt.
 
 (* (1) dereference, as the counting loop it is, returns within DEREF_LIMIT + 2 iterations on every graph
    (reference cycles, dangling references), and is the limit-recursive function used by the other models. *)
@@ -241,6 +241,70 @@ Theorem C13_example_stage_panic_propagates :
   get_page_content_x (decomp_real (fun _ => []) (fun _ _ => [])) fuel_contents ex_content_objs (1, 0)%N = Ok ex_content_plain.
 Proof. exact example_stage_panic_propagates. Qed.
 
+(* ---- (10) extract_text / extract_text_chunks with the real text stage (composition with C04 / C14 / C15 / C16) ----
+   [text_of_real] (Proofs/QueryRealText.v) = get_encoding_from_to_unicode_cmap (get_plain_content through the real filter
+   chain, the CMap grammar of Model/CMapParser.v, lopdf's from_sections), Content::decode (Model/Parser.v [decode_content]),
+   the Tf / Tj / TJ / ET loop with collect_text, and decode_text (one-byte tables with the `expect`; the ToUnicode loop),
+   every component able to answer Panic / OutOfFuel, C04's site-explicit models of the two decoders beside the value models.
+   Used: C04_content_no_panic, C04_content_terminates (fuel |content| + 2), C15_parser_stream_fuel_sufficient,
+   C04_one_byte_tables_no_panic (via table_ok of every shipped table), C04_cmap_text_no_panic (via from_sections_ok), and (9).
+   Third-party code that stays a function, i.e. is assumed to RETURN, nothing else:
+     inflate, lzw      flate2 ZlibDecoder::read_to_end, weezl decode_all
+     utf16be_bom       encoding_rs UTF_16BE.decode, reached only for /Encoding UniGB-UCS2-H / UniGB-UTF16-H
+     other_sections    nom on a ToUnicode CMap whose CIDSystemInfo dictionary holds nested values (Model/CMapParser.v
+                       answers PUnmodelled there): the sections it finds or a parse error; they then go through the real
+                       from_sections, so decode_text's sites stay covered.
+   Hence `_partial` for the last item only: that corner of the CMap GRAMMAR is not modelled; everything of lopdf's own
+   (filters, from_sections, get, the loops, the tables, the operation loop) is. *)
+
+(* the text stage alone: a value or an error for every content and every encoding list get_font_encoding can produce *)
+Theorem C13_text_stage_returns_partial :
+  forall (inflate : bytes -> bytes) (lzw : bool -> bytes -> bytes) (utf16be_bom : bytes -> ustring)
+         (other_sections : bytes -> option (list CMap.csection)) m fonts content,
+    let o := text_of_real inflate lzw utf16be_bom other_sections (fst (page_encodings m fonts)) content in
+    (exists v, o = Ok v) \/ o = Err.
+Proof.
+  intros. apply returns_iff. apply text_of_real_returns. apply page_encodings_shipped.
+Qed.
+
+(* extract_text_chunks on ANY document, ANY page numbers: every entry is a value or an error -- no Panic, no OutOfFuel -- with
+   the explicit fuel max (DEREF_LIMIT + 1) (|objects| + 2); and the entries are those of Query.extract_text_chunks on the
+   two stages with their outcome forgotten *)
+Theorem C13_extract_text_total_real_partial :
+  forall (inflate : bytes -> bytes) (lzw : bool -> bytes -> bytes) (utf16be_bom : bytes -> ustring)
+         (other_sections : bytes -> option (list CMap.csection)) d ns fuel,
+    fuel_text (d_objects d) <= fuel ->
+    Forall (fun o => (exists v, o = Ok v) \/ o = Err)
+      (extract_text_chunks_x (decomp_real inflate lzw) (text_of_real inflate lzw utf16be_bom other_sections) fuel d ns) /\
+    extract_text_chunks_x (decomp_real inflate lzw) (text_of_real inflate lzw utf16be_bom other_sections) fuel d ns =
+      extract_text_chunks (forget_d (decomp_real inflate lzw))
+                          (forget_t (text_of_real inflate lzw utf16be_bom other_sections)) fuel d ns.
+Proof.
+  intros inflate lzw u os d ns fuel H. destruct (extract_text_chunks_total_real inflate lzw u os d ns fuel H) as [H1 H2].
+  split; [|exact H2]. eapply Forall_impl; [|exact H1]. intros o Ho. apply returns_iff. exact Ho.
+Qed.
+
+(* the adapter for the text stage: stages that return (the text stage only on encodings that can occur) make the lifted
+   query equal to Query's *)
+Theorem C13_extract_text_adapter :
+  forall (dx : dict -> bytes -> out bytes) (tx : list (bytes * enc_class) -> bytes -> out (list (option ustring))),
+    (forall sd c, (exists v, dx sd c = Ok v) \/ dx sd c = Err) ->
+    (forall encs content, Forall enc_shipped encs -> (exists v, tx encs content = Ok v) \/ tx encs content = Err) ->
+    forall fuel d ns, extract_text_chunks_x dx tx fuel d ns = extract_text_chunks (forget_d dx) (forget_t tx) fuel d ns.
+Proof.
+  intros dx tx H1 H2 fuel d ns. apply extract_text_chunks_x_eq.
+  - intros sd c. apply returns_iff. apply H1.
+  - intros encs content Hs. apply returns_iff. apply H2. exact Hs.
+Qed.
+
+(* non-vacuity: a page with a WinAnsi font and an Identity-H font whose ToUnicode CMap parses; page 2 does not exist *)
+Theorem C13_example_real_text :
+  extract_text_chunks_x (decomp_real (fun _ => []) (fun _ _ => []))
+      (text_of_real (fun _ => []) (fun _ _ => []) (fun _ => []) (fun _ => None))
+      (fuel_text (d_objects ex_real_doc)) ex_real_doc [1%N; 2%N]
+  = [Ok (O, [Some [72; 105]; Some [97; 98; 99; 32; 65533; 32; 10]]%N); Err].
+Proof. exact example_real_text. Qed.
+
 Print Assumptions C13_dereference_total.
 Print Assumptions C13_get_object_total.
 Print Assumptions C13_catalog_total.
@@ -267,3 +331,7 @@ Print Assumptions C13_get_page_content_adapter.
 Print Assumptions C13_get_page_content_total_real.
 Print Assumptions C13_get_page_content_total_gallina.
 Print Assumptions C13_example_stage_panic_propagates.
+Print Assumptions C13_text_stage_returns_partial.
+Print Assumptions C13_extract_text_total_real_partial.
+Print Assumptions C13_extract_text_adapter.
+Print Assumptions C13_example_real_text.
